@@ -718,6 +718,8 @@ def run_bounded(ctx: Ctx) -> Report:
     else:
         for key in todo: _warm(key)
     t_warm = time.time() - t0
+    import gc
+    gc.collect(); gc.freeze()                                  # keep forked workers from copying the parent's heap
     nchunks = jobs * 12
     # interleave so that every chunk gets a similar mix
     chunks = [units[i::nchunks] for i in range(nchunks)]
